@@ -10,8 +10,13 @@ that wuffs-c keeps per io argument (internal/cgen/var.go), as offsets from `data
   (internal/cgen/builtin.go `writeBuiltinIO*`, base/io-private.h) and the `io_limit` block
   (statement.go `writeStatementIOManip`, base/io-private.h `…__io_reader__limit`): a body is a flat
   instruction list, the saved `o_N_io2_…`/`o_N_closed_…` locals are a stack, and *leaving the function
-  at any point* (return, yield, error — which skip the restore code of the enclosing `io_limit`
-  blocks, lang/check has a TODO to prohibit that) is "run a prefix, then `finalSave`".
+  at any point* is "run a prefix, then `finalSave`". Since fixes/C08-check-io-block-escapes.patch
+  lang/check rejects `return`, `yield`, a `break`/`continue` to an enclosing loop and a suspending or
+  failing coroutine call (one not written `status =? …`) inside an `io_bind` / `io_forget_history` /
+  `io_limit` body, so generated code only leaves a function BETWEEN blocks: the exit points of accepted
+  programs are the prefixes in which every opened block is closed. The invariant theorems are stated
+  for all prefixes (more than is needed); the prefixes that end inside a block describe what the
+  checker's rule prevents (the restore code of the enclosing blocks would be skipped).
 * `forgetBegin/forgetEnd`, `bindBegin/bindEnd` — the save/restore of `io_forget_history` and
   `io_bind` (statement.go), as separate functions (not part of the prefix machine).
 -/
